@@ -39,7 +39,9 @@ MENU = {
     "getValue": UNK, "setSourceRoute": UNK,
 }
 NAMES = sorted(MENU)
-TIMEOUT = 10.0
+from vlib import cfg
+
+TIMEOUT = cfg.cmd_timeout()  # "the command timeout"
 
 
 def zero_values(schema):
